@@ -52,8 +52,6 @@ def classify(body, impl, verdict):
         return "suffix-sorts-after-restart-siblings"
     naming = c[7].split(".")
     direct_ts = naming[0] == "tsd" or (naming[0] == "cu" and naming[1] == "~")
-    if direct_ts and any(x[4] == "1" for x in cfgs[1:]) and "2e726573746172742d" in impl:
-        return "direct-timestamps-append-onto-base-with-restart-siblings"
     return None
 
 
